@@ -5,7 +5,7 @@ from typing import Awaitable, Callable, Optional, Tuple, Union
 from .h2 import H2Protocol
 from .h11 import H2CProtocolRequiredError, H2ProtocolAssumedError, H11Protocol
 from ..config import Config
-from ..events import Event, RawData
+from ..events import Event, RawData, Updated
 from ..typing import AppWrapper, ConnectionState, TaskGroup, WorkerContext
 
 
@@ -77,6 +77,9 @@ class ProtocolWrapper:
                 self.send,
             )
             await self.protocol.initiate()
+            # The HTTP/1 parser took the preface for a request head and
+            # marked the connection busy, it is idle until a stream opens.
+            await self.send(Updated(idle=True))
             if error.data != b"":
                 return await self.protocol.handle(RawData(data=error.data))
         except H2CProtocolRequiredError as error:
